@@ -153,6 +153,14 @@ class Exec:
         serr = self._guard(lambda: self.reader.set_exception(Boom("boom")))
         return self._settle(serr, {"ev": "setexc"})
 
+    def endexc(self) -> dict:
+        """end of an HTTP chunk and a payload error in the same data_received call (no loop turn between)"""
+        def both() -> None:
+            self.reader.end_http_chunk_receiving()
+            self.reader.set_exception(Boom("boom"))
+        serr = self._guard(both)
+        return self._settle(serr, {"ev": "endexc"})
+
     def unread(self, data: bytes) -> dict:
         serr = self._guard(lambda: self.reader.unread_data(data))
         return self._settle(serr, {"ev": "unread", "data": list(data)})
@@ -236,6 +244,8 @@ def do_stim(x: Exec, e: dict) -> Optional[dict]:
         return x.eof()
     if ev == "setexc":
         return x.setexc()
+    if ev == "endexc":
+        return x.endexc()
     if ev == "unread":
         return x.unread(bytes(e["data"]))
     if ev == "nowait":
@@ -257,7 +267,9 @@ def replay_behaviours(ctx: Ctx, loop: steploop.StepLoop, behs: List[List[Any]], 
                 continue
             if last["ev"] in ("call", "nowait", "unread") and x.task is not None:
                 break   # the code is still blocked where the model has returned: the trace so far is judged
-            do_stim(x, {k: v for k, v in last.items()})
+            ev = do_stim(x, {k: v for k, v in last.items()})
+            if ev is not None and ev.get("rerr") == "toolong":
+                break   # bytes consumed by the failed call are unspecified: the execution ends here
         x.finish()
         if x.events:
             traces.append(x.trace(src))
@@ -301,6 +313,8 @@ def random_exec(ctx: Ctx, loop: steploop.StepLoop, rng: Any, k: int) -> dict:
             choices += ["eof"]
         if not exc and rng.random() < 0.05:
             choices += ["setexc"]
+        if not exc and chunked and not eof and rng.random() < 0.08:
+            choices += ["endexc"]
         if not busy:
             choices += ["call"] * 6 + ["nowait"]
             if use_unread and x.reader._cursor > 0:  # type: ignore[attr-defined]
@@ -320,6 +334,9 @@ def random_exec(ctx: Ctx, loop: steploop.StepLoop, rng: Any, k: int) -> dict:
             eof = True
         elif c == "setexc":
             e = x.setexc()
+            exc = True
+        elif c == "endexc":
+            e = x.endexc()
             exc = True
         elif c == "nowait":
             e = x.nowait(rng.choice([-1, 1, 2, 5]))
